@@ -590,3 +590,53 @@ def hosts(ctx, key, depth=2):
                     if sg is not None and not sg.get("pub") and ck.split("::")[0].lstrip("<") == crate and ck not in seen:
                         wl.append((ck, d + 1))
     return out
+
+
+NEXT_DECL = "core::iter::traits::iterator::Iterator::next"
+
+
+def loops_of(fd):
+    """(next-call instr, body entry block, loop-variable locals) for every `for` loop of the body"""
+    out = []
+    for c in fd.body.calls():
+        if c.decl != NEXT_DECL and c.callee != NEXT_DECL:
+            continue
+        if c.target is None or c.bb not in fd.cfg.reachable_from(c.target):
+            continue        # not in a cycle
+        # the switch on the Option result: the Some edge enters the body
+        sw = None
+        b = c.target
+        guard = 0
+        while b is not None and guard < 4:
+            guard += 1
+            t = fd.body.blocks[b][-1]
+            if t.kind == "switch":
+                sw = t
+                break
+            b = t.target if t.kind in ("goto", "drop") else None
+        if sw is None:
+            continue
+        some = dict(sw.targets).get(1, sw.otherwise)
+        out.append((c, some))
+    return out
+
+
+def loop_always_passes(fd, next_call, body_entry, is_sink):
+    """every path from the body entry back to the loop header passes an instruction accepted by is_sink; returns
+    (True, sinks) or (False, a block path witness)"""
+    header = next_call.bb
+    sinks = [i for i in fd.body.instrs() if i.kind == "call" and is_sink(i)]
+    barrier = {i.bb for i in sinks}
+    seen, wl = set(), [body_entry]
+    while wl:
+        b = wl.pop()
+        if b in seen:
+            continue
+        seen.add(b)
+        if b in barrier:
+            continue
+        if b == header:
+            return False, sinks
+        for s in fd.cfg.succ[b]:
+            wl.append(s)
+    return True, sinks
